@@ -141,11 +141,12 @@ Definition ptag (d : pkd) : N :=
   | PJwtHmac _ _ => 26 | PJwtEcdsa false _ _ => 27 | PJwtEcdsa true _ _ => 28 | PJwtRsaPub _ _ _ => 29
   | PJwtRsaPriv _ _ _ _ _ _ _ _ => 30 | PJwtMlDsaPub => 31 | PMlDsaPub => 32
   | PSlhDsa false => 33 | PSlhDsa true => 34 | PMlDsaPriv => 35 | PJwtMlDsaPriv => 36
+  | PComposite false _ _ _ => 37 | PComposite true _ _ _ => 38
   | PFallback _ => 0
   end.
 
 (* ... and the kind registered for a type URL (protoserialization's parser
-   table for the 39 transcribed key types; any other URL: the fallback key) *)
+   table for the 41 transcribed key types; any other URL: the fallback key) *)
 Definition url_tag (u : bytes) : N :=
   if beq u u_hmac then 1 else if beq u u_aes_cmac then 2 else if beq u u_aes_gcm then 3
   else if beq u u_aes_gcm_siv then 4 else if beq u u_aes_ctr_hmac then 5 else if beq u u_aes_siv then 6
@@ -163,13 +164,14 @@ Definition url_tag (u : bytes) : N :=
   else if beq u u_jwt_mldsa_pub then 31 else if beq u u_mldsa_pub then 32
   else if beq u u_slhdsa_pub then 33 else if beq u u_slhdsa_priv then 34
   else if beq u u_mldsa_priv then 35 else if beq u u_jwt_mldsa_priv then 36
+  else if beq u u_composite_pub then 37 else if beq u u_composite_priv then 38
   else 0.
 
 (* what the serializer of a kind writes: the material type ... *)
 Definition memt (t : N) (l : list N) : bool := existsb (N.eqb t) l.
 Definition symmetric_tags : list N := [1; 2; 3; 4; 5; 6; 7; 8; 9; 14; 15; 16; 24; 25; 26].
-Definition private_tags : list N := [11; 18; 19; 21; 23; 28; 30; 34; 35; 36].
-Definition public_tags : list N := [10; 12; 13; 17; 20; 22; 27; 29; 31; 32; 33].
+Definition private_tags : list N := [11; 18; 19; 21; 23; 28; 30; 34; 35; 36; 38].
+Definition public_tags : list N := [10; 12; 13; 17; 20; 22; 27; 29; 31; 32; 33; 37].
 Definition material_of_tag (t label : N) : N :=
   if memt t symmetric_tags then km_symmetric
   else if memt t private_tags then km_private
@@ -182,12 +184,12 @@ Definition prefix_of_class (c p : N) : N :=
   if c =? 1 then (if p =? pt_legacy then pt_crunchy else p) else if c =? 2 then pt_raw else p.
 
 Lemma out_material_tag e : out_material e = material_of_tag (ptag (ekey e)) (emat e).
-Proof. unfold out_material. destruct (ekey e) as [| | | | | | | | | | | | | | | | | | |[]|[]| | | |[]| | | | |[]| | |]; reflexivity. Qed.
+Proof. unfold out_material. destruct (ekey e) as [| | | | | | | | | | | | | | | | | | |[]|[]| | | |[]| | | | |[]| | |[]|]; reflexivity. Qed.
 
 Lemma shown_prefix_tag e : shown_prefix e = prefix_of_class (class_of_tag (ptag (ekey e))) (eprefix e).
 Proof.
   unfold shown_prefix, out_prefix.
-  destruct (ekey e) as [| | | | | | | | | | | | | | | | | | |[]|[]| | | |[]| | | | |[]| | |]; reflexivity.
+  destruct (ekey e) as [| | | | | | | | | | | | | | | | | | |[]|[]| | | |[]| | | | |[]| | |[]|]; reflexivity.
 Qed.
 
 (* the material type and the prefix type written for a key of type URL u that
@@ -206,7 +208,7 @@ Ltac rhs_compute :=
   match goal with |- _ = ?r => let v := eval vm_compute in r in change r with v end.
 
 (* at a leaf: the constructor is known, and so is the URL (or that it is none
-   of the 39) *)
+   of the 41) *)
 Ltac tag_done :=
   cbn [ptag]; unfold url_is in *;
   first [ match goal with H : beq (kd_url _) _ = true |- _ => apply beq_eq in H; rewrite H end;
@@ -230,14 +232,27 @@ Ltac tagk :=
 
 (* the kind of key object is decided by the type URL alone, for every
    transcribed parser and the fallback *)
-Lemma parse_key_tag kd p i d : parse_key kd p i = Ok d -> ptag d = url_tag (kd_url kd).
+Lemma parse_key_base_tag kd p i d : parse_key_base L kd p i = Ok d ->
+  url_is kd u_composite_pub = false -> url_is kd u_composite_priv = false -> ptag d = url_tag (kd_url kd).
 Proof.
-  unfold Untrusted.parse_key, parse_key_more, parse_ed25519_pub, parse_ed25519_priv, parse_rsa_priv,
+  intros H C1 C2. revert H.
+  unfold Untrusted.parse_key_base, parse_key_more, parse_ed25519_pub, parse_ed25519_priv, parse_rsa_priv,
     parse_ecies_pub, parse_ecies_priv, parse_hpke_pub, parse_hpke_priv,
     parse_stream_gcm_hkdf, parse_stream_ctr_hmac, parse_jwt_hmac, parse_jwt_ecdsa_pub, parse_jwt_ecdsa_priv,
     parse_jwt_rsa_pub, parse_mldsa_pub, parse_slhdsa_pub, parse_slhdsa_priv,
     parse_jwt_rsa_priv, parse_jwt_mldsa_pub, parse_mldsa_priv, parse_jwt_mldsa_priv, ed25519_from_seed.
   cbv zeta. tagk.
+Qed.
+
+Lemma parse_key_tag kd p i d : parse_key kd p i = Ok d -> ptag d = url_tag (kd_url kd).
+Proof.
+  unfold Untrusted.parse_key. destruct (url_is kd u_composite_pub) eqn:C1.
+  - intros H. apply parse_composite_kind in H. destruct H as (_ & cp & pt & seed & ->).
+    unfold url_is in C1. apply beq_eq in C1. rewrite C1. vm_compute. reflexivity.
+  - destruct (url_is kd u_composite_priv) eqn:C2.
+    + intros H. apply parse_composite_kind in H. destruct H as (_ & cp & pt & seed & ->).
+      unfold url_is in C2. apply beq_eq in C2. rewrite C2. vm_compute. reflexivity.
+    + intros H. eapply parse_key_base_tag; eassumption.
 Qed.
 
 (* what an entry reports, in terms of the key it was made from *)
